@@ -452,6 +452,100 @@ def _deferred_init(body):
             i += 1
 
 
+def _bool_leaves(e, depth=0):
+    """leaf expressions of a value built from blocks and if/else, or None if some leaf is not reached that way"""
+    if not isinstance(e, dict) or depth > 12:
+        return None
+    k = e.get("k")
+    if k == "DropTemps":
+        return _bool_leaves(e.get("e"), depth + 1)
+    if k == "Block":
+        if e.get("label") or e.get("expr") is None:
+            return None
+        return _bool_leaves(e["expr"], depth + 1)
+    if k == "If":
+        if e.get("else") is None:
+            return None
+        a, b = _bool_leaves(e["then"], depth + 1), _bool_leaves(e["else"], depth + 1)
+        return None if a is None or b is None else a + b
+    if k == "Lit" and isinstance(e.get("lit"), dict) and "bool" in e["lit"]:
+        return [e]
+    return None
+
+
+def _distribute(e, on_true, on_false, ty):
+    """the value `e` (blocks / if-else over bool literals) with every `true` leaf replaced by a copy of on_true and every
+    `false` leaf by a copy of on_false"""
+    import copy
+    k = e.get("k")
+    if k == "DropTemps":
+        return _distribute(e["e"], on_true, on_false, ty)
+    if k == "Block":
+        return dict(e, expr=_distribute(e["expr"], on_true, on_false, ty), ty=ty, nf="NF14")
+    if k == "If":
+        return dict(e, then=_distribute(e["then"], on_true, on_false, ty), ty=ty, nf="NF14", **{"else": _distribute(e["else"], on_true, on_false, ty)})
+    v = e["lit"]["bool"]
+    r = copy.deepcopy(on_true if v else on_false)
+    return r
+
+
+def _empty_block(sp):
+    return {"k": "Block", "stmts": [], "ty": "()", "sp": list(sp or [0, 0, 0, 0]), "nf": "NF14"}
+
+
+def _is_empty(b):
+    return isinstance(b, dict) and b.get("k") == "Block" and not b.get("stmts") and (b.get("expr") is None or _is_empty(b.get("expr")))
+
+
+def _prune_empty_else(n):
+    for y in _walk_dicts(n):
+        if y.get("k") == "If" and _is_empty(y.get("else")) and y.get("ty") in ("()", None):
+            del y["else"]
+
+
+def bool_blocks(body):
+    """NF14  if { s; if c { s1; true } else { s2; false } } { X } else { Y }   ->   { s; if c { s1; X } else { s2; Y } }
+             { if c { s1; true } else { false } };  (value discarded)          ->   { if c { s1 } };
+    a test that was moved into a helper returning bool (and inlined back, zsa/inline.py) becomes the test itself."""
+    def rec(n):
+        if isinstance(n, list):
+            return [rec(x) for x in n]
+        if not isinstance(n, dict):
+            return n
+        for key, v in list(n.items()):
+            if key in ("sp", "lit", "val"):
+                continue
+            if isinstance(v, (dict, list)):
+                n[key] = rec(v)
+        if n.get("k") == "If":
+            c = n["cond"]
+            while isinstance(c, dict) and c.get("k") == "DropTemps":
+                c = c["e"]
+            if isinstance(c, dict) and c.get("k") == "Block" and (c.get("stmts") or (c.get("expr") or {}).get("k") in ("If", "Block")):
+                lv = _bool_leaves(c)
+                if lv:
+                    on_false = n.get("else") if n.get("else") is not None else _empty_block(n.get("sp"))
+                    r = _distribute(c, n["then"], on_false, n.get("ty"))
+                    r["sp"] = n.get("sp")
+                    _prune_empty_else(r)
+                    return r
+        if n.get("k") == "ExprStmt" and n.get("semi") and isinstance(n.get("e"), dict) and n["e"].get("k") == "Block" and n["e"].get("inl_root"):
+            lv = _bool_leaves(n["e"])
+            if lv and (n["e"].get("stmts") or (n["e"].get("expr") or {}).get("k") in ("If", "Block")):
+                e_ = _empty_block(n["e"].get("sp"))
+                r = _distribute(n["e"], e_, e_, "()")
+                # leaves became empty blocks in tail position: `{ s1; {} }` is `{ s1 }`
+                for y in _walk_dicts(r):
+                    if y.get("k") == "Block" and isinstance(y.get("expr"), dict) and y["expr"].get("k") == "Block" and not y["expr"].get("stmts") and y["expr"].get("expr") is None:
+                        del y["expr"]
+                        y["ty"] = "()"
+                _prune_empty_else(r)
+                return dict(n, e=r)
+        return n
+    body_ = rec(body)
+    return body_
+
+
 def normalize(bodies, consts):
     nz = Normalizer(consts)
     for b in bodies:
